@@ -67,6 +67,7 @@ class Ctx:
         self.t0 = time.time()
         self.extra = {}
         self.assumptions = []
+        self.write = True
 
     def rule(self, name, desc, floor=0):
         r = Rule(self, name, desc, floor)
@@ -145,10 +146,11 @@ def finish(ctx, level, explanation, trusted_base=None, checker_cmd=None):
         "wall_s": round(time.time() - ctx.t0, 2),
         "violations": len(new),
     }
-    os.makedirs(os.path.join(VERIF, "evidence"), exist_ok=True)
-    with open(os.path.join(VERIF, "evidence", ctx.prop + ".json"), "w") as fh:
-        json.dump(ev, fh, indent=1, sort_keys=False)
-        fh.write("\n")
+    if ctx.write:
+        os.makedirs(os.path.join(VERIF, "evidence"), exist_ok=True)
+        with open(os.path.join(VERIF, "evidence", ctx.prop + ".json"), "w") as fh:
+            json.dump(ev, fh, indent=1, sort_keys=False)
+            fh.write("\n")
     for r in ctx.rules:
         print(
             "rule %-8s %3d/%3d discharged  %s" % (r.name, r.discharged, r.obligations, r.desc[:90])
@@ -161,6 +163,10 @@ def finish(ctx, level, explanation, trusted_base=None, checker_cmd=None):
         for v in new:
             h = hashlib.sha1(v["key"].encode()).hexdigest()[:10]
             p = os.path.join(VERIF, "findings", "%s-%s.json" % (ctx.prop, h))
+            if not ctx.write:
+                print("  %s: %s [%s] %s" % (v["kind"], v["key"], v["where"], v["what"]))
+                print("VIOLATION property=%s replay=%s" % (ctx.prop, p))
+                continue
             with open(p, "w") as fh:
                 json.dump(
                     {
